@@ -37,7 +37,7 @@ pub open spec fn kind_is_not_found(e: VfsError) -> bool { ekind(e) is FileNotFou
 
 // ---------------- TC: observers
 pub open spec fn tc_exists(pre: Tree, p: Seq<char>, r: VfsResult<bool>, post: Tree) -> bool {
-    post =~= pre && (r is Ok ==> r->Ok_0 == pre.contains_key(p))
+    post =~= pre && (r is Ok ==> r->Ok_0 == pre.contains_key(p)) && (r is Err ==> kind_neutral(r->Err_0))
 }
 pub open spec fn meta_matches(m: VfsMetadata, n: Node) -> bool {
     &&& (m.file_type is Directory) == n.is_dir
@@ -48,6 +48,7 @@ pub open spec fn tc_metadata(pre: Tree, p: Seq<char>, r: VfsResult<VfsMetadata>,
     &&& post =~= pre
     &&& (r is Ok ==> pre.contains_key(p) && meta_matches(r->Ok_0, pre[p]))
     &&& (r is Err && !pre.contains_key(p) ==> kind_is_not_found(r->Err_0))
+    &&& (r is Err ==> kind_neutral(r->Err_0))
 }
 /// names is an enumeration of the children of p: bare names, each child exactly once
 pub open spec fn lists_children(t: Tree, p: Seq<char>, names: Seq<Seq<char>>) -> bool {
@@ -61,29 +62,34 @@ pub open spec fn tc_read_dir_ok(pre: Tree, p: Seq<char>, names: Seq<Seq<char>>, 
     post =~= pre && is_dir_at(pre, p) && lists_children(pre, p, names)
 }
 pub open spec fn tc_read_dir_err(pre: Tree, p: Seq<char>, e: VfsError, post: Tree) -> bool {
-    post =~= pre && (!pre.contains_key(p) ==> kind_is_not_found(e))
+    post =~= pre && (!pre.contains_key(p) ==> kind_is_not_found(e)) && kind_neutral(e)
 }
 pub open spec fn tc_open_file_ok(pre: Tree, p: Seq<char>, bytes: Seq<u8>, pos: int, post: Tree) -> bool {
     is_file_at(pre, p) && bytes == pre[p].bytes && pos == 0 && same_modulo_accessed(pre, post)
 }
 pub open spec fn tc_open_file_err(pre: Tree, p: Seq<char>, e: VfsError, post: Tree) -> bool {
-    same_modulo_accessed(pre, post) && (!pre.contains_key(p) ==> kind_is_not_found(e))
+    same_modulo_accessed(pre, post) && (!pre.contains_key(p) ==> kind_is_not_found(e)) && kind_neutral(e)
 }
 
 // ---------------- TC: mutators
+/// only create_dir classifies an occupied target; every other error is "kind neutral" (never DirectoryExists / FileExists),
+/// which is what lets create_dir_all tolerate exactly DirectoryExists
+pub open spec fn kind_neutral(e: VfsError) -> bool { !(ekind(e) is DirectoryExists) && !(ekind(e) is FileExists) }
 pub open spec fn tc_create_dir(pre: Tree, p: Seq<char>, r: VfsResult<()>, post: Tree) -> bool {
     &&& (r is Ok ==> pre.contains_key(parent_spec(p)) && !pre.contains_key(p) && post.dom() =~= pre.dom().insert(p)
             && post[p].is_dir && post[p].bytes.len() == 0
             && (forall|q: Seq<char>| q != p && pre.contains_key(q) ==> #[trigger] post[q] == pre[q]))
     &&& (r is Err ==> post =~= pre
-            && (abs_path(p) && pre.contains_key(parent_spec(p)) && is_file_at(pre, p) ==> ekind(r->Err_0) is FileExists)
-            && (abs_path(p) && pre.contains_key(parent_spec(p)) && is_dir_at(pre, p) ==> ekind(r->Err_0) is DirectoryExists)
             && (ekind(r->Err_0) is DirectoryExists ==> is_dir_at(pre, p))
             && (ekind(r->Err_0) is FileExists ==> is_file_at(pre, p)))
 }
-/// completeness half (TC+): the documented precondition implies success
+/// completeness half (TC+): the documented precondition implies success, an occupied target is classified by its occupant
 pub open spec fn tcp_create_dir(pre: Tree, p: Seq<char>, r: VfsResult<()>) -> bool {
-    abs_path(p) && pre.contains_key(parent_spec(p)) && !pre.contains_key(p) ==> r is Ok
+    abs_path(p) && pre.contains_key(parent_spec(p)) ==> {
+        &&& (!pre.contains_key(p) ==> r is Ok)
+        &&& (is_file_at(pre, p) ==> r is Err && ekind(r->Err_0) is FileExists)
+        &&& (is_dir_at(pre, p) ==> r is Err && ekind(r->Err_0) is DirectoryExists)
+    }
 }
 pub open spec fn tc_create_file_ok(pre: Tree, p: Seq<char>, w_dest: Seq<char>, w_buf: Seq<u8>, w_pos: int, post: Tree) -> bool {
     &&& pre.contains_key(parent_spec(p)) && (!pre.contains_key(p) || is_file_at(pre, p))
@@ -98,7 +104,7 @@ pub open spec fn tc_append_file_ok(pre: Tree, p: Seq<char>, w_dest: Seq<char>, w
     is_file_at(pre, p) && post =~= pre && w_dest == p && w_buf == pre[p].bytes && w_pos == pre[p].bytes.len()
 }
 pub open spec fn tc_fail_unchanged(pre: Tree, p: Seq<char>, e: VfsError, post: Tree) -> bool {
-    post =~= pre && (!pre.contains_key(p) ==> kind_is_not_found(e))
+    post =~= pre && (!pre.contains_key(p) ==> kind_is_not_found(e)) && kind_neutral(e)
 }
 pub open spec fn tc_remove_file(pre: Tree, p: Seq<char>, r: VfsResult<()>, post: Tree) -> bool {
     &&& (r is Ok ==> is_file_at(pre, p) && post =~= pre.remove(p))
@@ -121,7 +127,7 @@ pub open spec fn with_time(n: Node, f: TimeField, t: SystemTime) -> Node {
 }
 pub open spec fn tc_set_time(pre: Tree, p: Seq<char>, f: TimeField, t: SystemTime, r: VfsResult<()>, post: Tree) -> bool {
     &&& (r is Ok ==> pre.contains_key(p) && post =~= pre.insert(p, with_time(pre[p], f, t)))
-    &&& (r is Err ==> post =~= pre)
+    &&& (r is Err ==> post =~= pre && kind_neutral(r->Err_0))
 }
 pub open spec fn tcp_set_time(pre: Tree, p: Seq<char>, r: VfsResult<()>) -> bool { pre.contains_key(p) ==> r is Ok }
 
@@ -138,7 +144,9 @@ pub open spec fn pc_create_dir(pre: Tree, p: Seq<char>, r: VfsResult<()>, post: 
     &&& (r is Ok ==> is_dir_at(pre, parent_spec(p)) && !pre.contains_key(p) && post.dom() =~= pre.dom().insert(p)
             && post[p].is_dir && post[p].bytes.len() == 0
             && (forall|q: Seq<char>| q != p && pre.contains_key(q) ==> #[trigger] post[q] == pre[q]))
-    &&& (r is Err ==> post =~= pre)
+    &&& (r is Err ==> post =~= pre
+            && (ekind(r->Err_0) is DirectoryExists ==> is_dir_at(pre, p))
+            && (ekind(r->Err_0) is FileExists ==> is_file_at(pre, p)))
 }
 /// exactness for a backend that does not fail spuriously (TC+): the call succeeds exactly when the tree meets its precondition,
 /// and an occupied target is classified by its occupant (C01, C12)
